@@ -388,6 +388,7 @@ func (s *Fn) condFacts(cond ssa.Value, val bool) (fs []Lin, dq []Lin) {
 			}
 			if cs != nil && len(may) == 1 {
 				fs = append(fs, s.instantiate(c, may[0].facts)...)
+				fs = append(fs, s.instantiate(c, may[0].trueFacts)...)
 			}
 		}
 	case *ssa.UnOp:
@@ -617,6 +618,7 @@ type retCase struct {
 	facts     []Lin
 	ret       *Lin  // int value or len of slice result (single result only)
 	boolConst *bool // for bool results
+	trueFacts []Lin // for bool results: facts implied by the returned condition being true
 }
 
 func (e *Engine) returnCases(f *ssa.Function) []retCase {
@@ -655,6 +657,9 @@ func (e *Engine) returnCases(f *ssa.Function) []retCase {
 			if k, ok := v.(*ssa.Const); ok && k.Value != nil && k.Value.Kind() == constant.Bool {
 				bv := constant.BoolVal(k.Value)
 				rc.boolConst = &bv
+			} else {
+				tf, _ := fn.condFacts(v, true)
+				rc.trueFacts = tf
 			}
 		}
 		rc.facts = append(append([]Lin{}, fs...), fn.global...)
